@@ -83,6 +83,37 @@ func c09Gen(t *rapid.T) c09Case {
 		StepAlgs: rapid.SampledFrom([]string{"sha256", "sha256", "sha256", "sha512", "both"}).Draw(t, "stepalgs")}
 	files := sortedFileKeys(c09Files(w))
 	pick := func(label string) string { return rapid.SampledFrom(files).Draw(t, label) }
+	if len(files) > 0 && rapid.IntRange(0, 5).Draw(t, "longline") == 0 {
+		// one product is a file with a very long first line (a minified bundle): the links that recorded
+		// it get the digest of the new content
+		p := pick("longlinefile")
+		oldDigest := hx.Sha256Hex(c09Files(w)[p])
+		content := "@REPEAT:70000:x@\nsecond line\nthird line\n"
+		newDigest := hx.Sha256Hex(hx.ExpandContent(content))
+		for i := range w.Product {
+			if w.Product[i].Path == p {
+				w.Product[i].Content = hx.ExpandContent(content)
+			}
+		}
+		for i, f := range w.Links {
+			if f.Meta.Link == nil {
+				continue
+			}
+			l := *f.Meta.Link
+			l.Materials, l.Products = copyArtifacts(l.Materials), copyArtifacts(l.Products)
+			for _, arts := range []hx.MArtifacts{l.Materials, l.Products} {
+				if h, ok := arts[p]; ok && h["sha256"] == oldDigest {
+					arts[p] = map[string]string{"sha256": newDigest}
+				}
+			}
+			w.Links[i].Meta = hx.MMeta{Link: &l}
+		}
+		c.World = w
+		c.LineNorm = true
+		if rapid.Bool().Draw(t, "longlinetamper") {
+			c.DirEdits = append(c.DirEdits, "a:"+p+":tampered behind the long line")
+		}
+	}
 	nEdits := rapid.SampledFrom([]int{0, 0, 0, 1, 1, 2}).Draw(t, "nedits")
 	for i := 0; i < nEdits; i++ {
 		switch rapid.IntRange(0, 7).Draw(t, "edit") {
@@ -127,7 +158,12 @@ func c09Gen(t *rapid.T) c09Case {
 		case 3:
 			in.Exit = rapid.SampledFrom([]int{1, 2, 42, 127, 255, -9, -15}).Draw(t, "exit") // negative: the command kills itself with that signal
 		case 4:
-			in.Broken = rapid.SampledFrom([]string{"missing", "empty", "directory"}).Draw(t, "broken")
+			in.Broken = rapid.SampledFrom([]string{"missing", "empty", "directory", "bare-missing", "bare-missing"}).Draw(t, "broken")
+			if in.Broken == "bare-missing" {
+				// the tool the layout asks for does not exist on this machine - but the delivered directory
+				// holds an executable of that name
+				c.DirEdits = append(c.DirEdits, "w:c09-tool-that-is-not-installed:#!/bin/sh\nexit 0\n")
+			}
 		case 5:
 			in.Ops = []string{"w:insp-" + in.Name + ".out:x", "w:intruder-" + in.Name + ":y"}
 		case 6, 7:
@@ -314,6 +350,8 @@ func c09Run(c c09Case, r *hx.Rec) error {
 			mi.Run = []string{}
 		case "directory":
 			mi.Run = []string{"@ROOT@"}
+		case "bare-missing":
+			mi.Run = []string{"c09-tool-that-is-not-installed", "--check"}
 		default:
 			mi.Run = append([]string{"@EMIT@", "log:@LOG@:" + in.Name}, in.Ops...)
 			if in.Exit < 0 {
@@ -335,6 +373,9 @@ func c09Run(c c09Case, r *hx.Rec) error {
 			if p == bit+"-tool" {
 				wf.Special = bit
 			}
+		}
+		if p == "c09-tool-that-is-not-installed" {
+			wf.Special = "exec"
 		}
 		w.Product = append(w.Product, wf)
 	}
